@@ -23,34 +23,40 @@ Final == {"Fin", "FinMod", "Fail", "Cnclld", "CnclldMan"}
 NonFinal == {"Wait", "Start"}
 
 \* ------------------------------------------------------------------ provider part
-VARIABLES txid, reqs, phist
-pvars == <<txid, reqs, phist>>
+VARIABLES txid, reqs, phist, epoch
+pvars == <<txid, reqs, phist, epoch>>
 
 Outcome == {"fin", "finmod", "fail", "raise"}
 FinalOf(o) == CASE o = "fin" -> "Fin" [] o = "finmod" -> "FinMod" [] OTHER -> "Fail"
 
-PInit == txid = 0 /\ reqs = <<>> /\ phist = <<>>
+PInit == txid = 0 /\ reqs = <<>> /\ phist = <<>> /\ epoch = 0
 \* idle: what happened in the operations worker since the previous request - "none": nothing; "quiet": it was idle long
 \* enough to run its time-out housekeeping; "raises": ... and the application's time-out handler of an operation raised.
 \* None of this has any effect on how requests are answered.
 Idle == {"none", "quiet", "raises"}
-Request(known, queued, o, idle) ==
+\* reboot: before this request the provider was restarted (a new instance at the same address: its transaction ids
+\* start again) and the consumer reconnected with restart().  Transaction ids are unique and increasing per provider
+\* instance; what the consumer collected for the transactions of the former instance belongs to nothing any more.
+Request(known, queued, o, idle, reboot) ==
   /\ Len(reqs) < MaxReq
-  /\ txid' = txid + 1
-  /\ LET f == FinalOf(o)
-         r == IF ~known THEN [tx |-> txid + 1, resp |-> "Fail", reports |-> <<>>, err |-> TRUE]
-              ELSE IF queued THEN [tx |-> txid + 1, resp |-> "Wait", reports |-> <<"Wait", "Start", f>>, err |-> o = "raise"]
-              ELSE [tx |-> txid + 1, resp |-> f, reports |-> <<f>>, err |-> o = "raise"]
-     IN reqs' = Append(reqs, r)
-  /\ phist' = Append(phist, [act |-> "Request", known |-> known, queued |-> queued, outcome |-> o, idle |-> idle])
-PNext == \E k \in BOOLEAN, q \in BOOLEAN, o \in Outcome, idle \in Idle : Request(k, q, o, idle)
+  /\ (reboot => (Len(reqs) > 0 /\ idle = "none"))
+  /\ LET tx == IF reboot THEN 1 ELSE txid + 1
+         ep == IF reboot THEN epoch + 1 ELSE epoch
+         f == FinalOf(o)
+         r == IF ~known THEN [tx |-> tx, ep |-> ep, resp |-> "Fail", reports |-> <<>>, err |-> TRUE]
+              ELSE IF queued THEN [tx |-> tx, ep |-> ep, resp |-> "Wait", reports |-> <<"Wait", "Start", f>>, err |-> o = "raise"]
+              ELSE [tx |-> tx, ep |-> ep, resp |-> f, reports |-> <<f>>, err |-> o = "raise"]
+     IN reqs' = Append(reqs, r) /\ txid' = tx /\ epoch' = ep
+  /\ phist' = Append(phist, [act |-> "Request", known |-> known, queued |-> queued, outcome |-> o, idle |-> idle,
+                              reboot |-> reboot])
+PNext == \E k \in BOOLEAN, q \in BOOLEAN, o \in Outcome, idle \in Idle, rb \in BOOLEAN : Request(k, q, o, idle, rb)
 
 \* the response state followed by the reports, with a leading report that only repeats the response dropped
 Legal(resp, reps) ==
   LET s == IF reps # <<>> /\ Head(reps) = resp THEN reps ELSE <<resp>> \o reps
   IN \/ (Len(s) = 3 /\ s[1] = "Wait" /\ s[2] = "Start" /\ s[3] \in Final)
      \/ (Len(s) = 1 /\ s[1] \in Final)
-TxIdsIncrease == \A i, j \in DOMAIN reqs : i < j => reqs[i].tx < reqs[j].tx
+TxIdsIncrease == \A i, j \in DOMAIN reqs : (i < j /\ reqs[i].ep = reqs[j].ep) => reqs[i].tx < reqs[j].tx
 LegalSeq == \A i \in DOMAIN reqs : Legal(reqs[i].resp, reqs[i].reports)
 PEmit == (Len(reqs) = MaxReq) => PrintT(<<"BEH", ToJson(phist)>>)
 
